@@ -509,6 +509,17 @@ impl<T: Types> RaftLog<T> {
         self.state_machine.payload_cache.write().unwrap().drain_evictable();
     }
 
+    /// The entries resident in the payload cache: log id and payload size.
+    #[cfg(feature = "verif-hooks")]
+    pub fn verif_cache_resident(&self) -> Vec<(T::LogId, u64)> {
+        let cache = self.state_machine.payload_cache.read().unwrap();
+        cache
+            .cache
+            .iter()
+            .map(|(id, p)| (id.clone(), T::payload_size(p)))
+            .collect()
+    }
+
     fn get_log_id(&self, index: u64) -> Result<T::LogId, RaftLogStateError<T>> {
         let entry = self
             .state_machine
